@@ -82,6 +82,127 @@ theorem go_onchain_in_time_arb (env : Env) (a : Arb) (height : Nat) (choice : AS
   simp only [handleBlock, hs, AState.isContractClosed]
   simpa [Out.append] using this
 
+/-! ### 1b. After a (re)start every HTLC of every start-up set is under the deadline check -/
+
+theorem linkUpdate_state (a : Arb) (k : SetKey) (hs : List Htlc) :
+    (linkUpdate a k hs).state = a.state := by
+  cases k <;> rfl
+
+theorem linkUpdate_other (a : Arb) (k k' : SetKey) (hs : List Htlc) (hne : k ≠ k') :
+    (linkUpdate a k' hs).active.get k = a.active.get k := by
+  cases k <;> cases k' <;> first | exact absurd rfl hne | rfl
+
+/-- link updates for OTHER commitments leave a start-up set (and the state) as it was -/
+theorem linkUpdates_preserve (us : List (SetKey × List Htlc)) (a : Arb) (k : SetKey)
+    (hk : ∀ u ∈ us, u.1 ≠ k) :
+    (us.foldl (fun a u => linkUpdate a u.1 u.2) a).active.get k = a.active.get k ∧
+    (us.foldl (fun a u => linkUpdate a u.1 u.2) a).state = a.state := by
+  induction us generalizing a with
+  | nil => exact ⟨rfl, rfl⟩
+  | cons u us ih =>
+    simp only [List.foldl_cons]
+    have h1 := ih (linkUpdate a u.1 u.2) (fun v hv => hk v (by simp [hv]))
+    rw [h1.1, h1.2, linkUpdate_state,
+      linkUpdate_other a k u.1 u.2 (fun h => hk u (by simp) h.symm)]
+    exact ⟨rfl, rfl⟩
+
+/-- `restart_goes_onchain_local`: the arbitrator is built by `NewChannelArbitrator` from the
+    three start-up sets (restart) and the peer stays silent — or the link only reports the
+    peer's commitments anew.  A forwarded (or past-grace) offered HTLC of the start-up LOCAL set
+    makes the first block at or past `RefundTimeout − delta` call `ForceCloseChan` exactly once. -/
+theorem restart_goes_onchain_local (env : Env) (loc rem : List Htlc) (pend : Option (List Htlc))
+    (fcErr : FcErr) (us : List (SetKey × List Htlc)) (hus : ∀ u ∈ us, u.1 ≠ .loc)
+    (height : Nat) (choice : AState → Bool) (h : Htlc)
+    (hm : h ∈ (newHtlcSet loc).outgoing)
+    (hnw : env.deltaOut ≤ h.refundTimeout) (hlt : h.refundTimeout < U32)
+    (hdue : h.refundTimeout - env.deltaOut ≤ height)
+    (hobl : env.isForwarded h.index = true ∨ env.pastGrace = true) :
+    (handleBlock env (us.foldl (fun a u => linkUpdate a u.1 u.2) (startUp loc rem pend fcErr))
+      height none choice).2.forceClose = 1 := by
+  have hp := linkUpdates_preserve us (startUp loc rem pend fcErr) .loc hus
+  apply go_onchain_in_time_arb env _ height choice h (by rw [hp.2]; rfl) _ hnw hlt hdue hobl
+  have : (us.foldl (fun a u => linkUpdate a u.1 u.2) (startUp loc rem pend fcErr)).active.loc
+      = newHtlcSet loc := hp.1
+  rw [this]; exact hm
+
+/-- `restart_goes_onchain_dangling`: same for an offered HTLC that the start-up sets carry only
+    on the peer's current and/or PENDING commitment (one of our CommitSigs was unrevoked when the
+    node went down): with a silent peer the first block at which every copy is at its cut-off
+    (preimage unknown) calls `ForceCloseChan` exactly once.  This is the set the deadline check
+    must not lose at start-up. -/
+theorem restart_goes_onchain_dangling (env : Env) (loc rem : List Htlc) (pend : Option (List Htlc))
+    (fcErr : FcErr) (height : Nat) (choice : AState → Bool) (i : Nat)
+    (hi : i ∈ ((startSets loc rem pend).rem.outgoing ++ (startSets loc rem pend).pend.outgoing).map (·.index))
+    (hnl : i ∉ (startSets loc rem pend).loc.outgoing.map (·.index))
+    (hall : ∀ x ∈ (startSets loc rem pend).rem.outgoing ++ (startSets loc rem pend).pend.outgoing,
+      x.index = i →
+      env.deltaOut ≤ x.refundTimeout ∧ x.refundTimeout < U32 ∧
+      x.refundTimeout - env.deltaOut ≤ height ∧
+      (env.isForwarded x.index = true ∨ env.pastGrace = true) ∧
+      env.preimageKnown x.hash = false) :
+    (handleBlock env (startUp loc rem pend fcErr) height none choice).2.forceClose = 1 := by
+  have hne := go_onchain_in_time_dangling env (startSets loc rem pend) height (choice .default) i
+    hi hnl hall
+  have := (advance_chain_go env (startUp loc rem pend fcErr) height choice rfl hne).1
+  simp only [handleBlock, startUp, AState.isContractClosed]
+  simpa [Out.append, startUp] using this
+
+namespace Restart
+
+def h3 : Htlc := { index := 3, incoming := false, amt := 5000000, refundTimeout := 900, outputIndex := 0, hash := 1 }
+/-- forwarded HTLC 8 was added by our last, still unrevoked CommitSig: only on the pending set -/
+def h8 : Htlc := { index := 8, incoming := false, amt := 4000000, refundTimeout := 700, outputIndex := 1, hash := 2 }
+
+def env : Env :=
+  { preimageKnown := fun _ => false, isForwarded := fun _ => true, pastGrace := true,
+    deltaOut := 5, deltaIn := 5 }
+
+/-- the hypotheses of `restart_goes_onchain_dangling` hold for HTLC 8 at its cut-off 695 -/
+example : 8 ∈ ((startSets [h3] [h3] (some [h3, h8])).rem.outgoing ++
+      (startSets [h3] [h3] (some [h3, h8])).pend.outgoing).map (·.index) ∧
+    8 ∉ (startSets [h3] [h3] (some [h3, h8])).loc.outgoing.map (·.index) := by
+  decide +kernel
+
+/-- start-up as it is: at the cut-off of HTLC 8 the node force closes … -/
+theorem restart_pending_deadline_met (choice : AState → Bool) :
+    (handleBlock env (startUp [h3] [h3] (some [h3, h8])) 695 none choice).2.forceClose = 1 := by
+  apply restart_goes_onchain_dangling env [h3] [h3] (some [h3, h8]) .none 695 choice 8
+  · decide +kernel
+  · decide +kernel
+  · intro x hx hxi
+    have hl : (startSets [h3] [h3] (some [h3, h8])).rem.outgoing ++
+        (startSets [h3] [h3] (some [h3, h8])).pend.outgoing = [h3, h3, h8] := by decide +kernel
+    rw [hl] at hx
+    simp only [List.mem_cons, List.not_mem_nil, or_false] at hx
+    have : x = h8 := by
+      rcases hx with rfl | rfl | rfl
+      · exact absurd hxi (by decide)
+      · exact absurd hxi (by decide)
+      · rfl
+    subst this
+    refine ⟨by decide, by decide, by decide, Or.inl rfl, rfl⟩
+
+/-- … whereas a start-up that seeds the pending entry from the peer's CURRENT commitment
+    (dropping the pending set) never goes on chain for it: not at the cut-off, not at expiry. -/
+theorem dropping_pending_set_misses_deadline (choice : AState → Bool) (height : Nat)
+    (hh : height < 895) :
+    (handleBlock env (startUp [h3] [h3] (some [h3])) height none choice).2.forceClose = 0 ∧
+    (handleBlock env (startUp [h3] [h3] (some [h3])) height none choice).1.state = .default := by
+  have hnil : checkLocal env height .chain (startSets [h3] [h3] (some [h3])) false (choice .default) = [] := by
+    have hs : shouldGoOnChain env h3 5 height = false := by
+      simp only [shouldGoOnChain, sub32, U32, h3]
+      have : height < (900 + 4294967296 - 5 % 4294967296) % 4294967296 := by omega
+      simp [this]
+    cases choice .default <;>
+      simp [checkLocal, checkCommit, checkRemoteDangling, mergeRemote, haveChainActions, startSets,
+        newHtlcSet, mapOfList, insertByIndex, hasIndex, h3, env] <;>
+      simpa [env, h3] using hs
+  have := advance_chain_stay env (startUp [h3] [h3] (some [h3])) height choice rfl hnil
+  simp only [handleBlock, startUp, AState.isContractClosed] at this ⊢
+  simp [Out.append, this]
+
+end Restart
+
 /-- `never_for_unclaimable`: if no offered HTLC on any commitment has reached its cut-off and every
     received HTLC on our commitment that has reached its cut-off has an unknown preimage, the
     chain-trigger action map is empty … -/
